@@ -1,11 +1,13 @@
 (* The single entry point of the extracted model:  api cmd args.
    Command ranges (mirrored in harness/props/*.py):
-     1..9 text utils (C20)   10..99 TeX (C19)   100..199 time (C15-C18)
-     200..299 linear scale (C12-C14)   300..399 layout (C01-C04, C06)
+     1..9 text utils (C20)   10..99 TeX (C19)   100..199 time (C14-C18)
+     200..299 linear scale (C12-C14)   300..339 layer placement (C01-C03)
+     340..379 distributor (C04)   380..399 engine histories (C06)
      400..499 VPSC solver (C05)   500..599 rendering/timeline (C07-C11) *)
 From Coq Require Import ZArith List.
 From Labella Require Import Extract.Codec Extract.ApiText Extract.ApiTex Extract.ApiTime
-  Extract.ApiScale Extract.ApiLayout Extract.ApiVpsc Extract.ApiRender.
+  Extract.ApiScale Extract.ApiLayout Extract.ApiDist Extract.ApiForce Extract.ApiVpsc
+  Extract.ApiRender.
 Open Scope Z_scope.
 
 Definition api (cmd : Z) (a : list Z) : list Z :=
@@ -13,6 +15,8 @@ Definition api (cmd : Z) (a : list Z) : list Z :=
   else if cmd <? 100 then api_tex cmd a
   else if cmd <? 200 then api_time cmd a
   else if cmd <? 300 then api_scale cmd a
-  else if cmd <? 400 then api_layout cmd a
+  else if cmd <? 340 then api_layout cmd a
+  else if cmd <? 380 then api_dist cmd a
+  else if cmd <? 400 then api_force cmd a
   else if cmd <? 500 then api_vpsc cmd a
   else api_render cmd a.
